@@ -377,7 +377,9 @@ fn power_iteration(
         normalize(&mut v);
 
         // Check convergence
-        if (new_sigma - sigma).abs() < tol * sigma.max(1.0) {
+        // Relative test: an absolute floor (`tol * sigma.max(1.0)`) stopped every singular value
+        // below 1 after a digit or two, and the deflation then carried the error forward.
+        if (new_sigma - sigma).abs() <= tol * new_sigma {
             return Ok((new_sigma, u, v));
         }
         sigma = new_sigma;
@@ -472,8 +474,9 @@ fn svd_power_iteration(
     max_rank: usize,
     tolerance: f32,
 ) -> Result<SvdResult, DecomposeError> {
-    // Reduced iterations (20 instead of 100) - sufficient for embedding vectors
-    const MAX_POWER_ITERATIONS: usize = 20;
+    // Upper bound only: the relative convergence test ends well-separated cases after a few
+    // iterations; close singular values need the head-room to separate before deflation.
+    const MAX_POWER_ITERATIONS: usize = 100;
 
     if matrix.data.is_empty() {
         return Err(DecomposeError::EmptyMatrix);
